@@ -15,6 +15,7 @@
    No proofs in this file. *)
 From ASV Require Import Base Loc.
 From ASV.C11 Require Import Model.
+From ASV.C11 Require ModelMain.
 From ASV.C10 Require Model.
 From Coq Require Import String Ascii.
 Close Scope string_scope.
@@ -307,9 +308,12 @@ Definition rdr_to_json (cur : Z) (r : rdr) : jv :=
         (K_outside_protoclusters, JArr (map cds_to_json (rd_out r)));
         (K_multipliers, JObj [(K_cutoff, rd_cutoff r); (K_neighbourhood, rd_neigh r)])].
 
-(* fn 7: [j; names; cur] -> regenerate and save again; any other fn: C11.Model.run_C11 *)
+(* fn 7: [j; names; cur] -> regenerate and save again; fn 9 / 19: the bookkeeping of main.run_module
+   (C11.ModelMain) and its specification; any other fn: C11.Model.run_C11 *)
 Definition run_C11b (fn : Z) (l : list Z) : list Z :=
-  if fn =? 7 then
+  if fn =? 9 then ModelMain.run_main_level false l
+  else if fn =? 19 then ModelMain.run_main_level true l
+  else if fn =? 7 then
     match djv (S (List.length l)) l with
     | Some (JArr [j; names; JInt cur], []) =>
       match jstrs names with
